@@ -248,6 +248,10 @@ def gen_F(rng, states, objstates=False):
         return None
     if r < 0.62:
         return []
+    if not objstates and rng.random() < 0.3:
+        # a fairness set may mention states of ANOTHER structure of the caller (one F for a family of structures): they are simply
+        # not states here.  With 'Fshared' the very same set objects are then passed to calls on different structures.
+        states = sorted(set(states) | {0, 1, 2, 3, 4})
     return [sorted(s for s in states if rng.random() < 0.5) for _ in range(rng.randint(1, 3))]
 
 
